@@ -14,14 +14,14 @@ Import ListNotations.
    of the same pool is outstanding uses that block's parameter set), nothing asserts and every deallocate
    sends the block back where it came from: a pool block into the pool (whose parameters are still those
    of the block), a raw block to the base allocator with exactly the size it was allocated with. *)
-Theorem C20_dealloc_matches_origin : forall ops, good true init ops = true ->
-  exists st' obs, run init ops = Ok (st', obs) /\ Forall (fun o => routed_ok o = true) obs /\ inv st'.
+Theorem C20_dealloc_matches_origin : forall cfg ops, good cfg true init ops = true ->
+  exists st' obs, run cfg init ops = Ok (st', obs) /\ Forall (fun o => routed_ok o = true) obs /\ inv cfg st'.
 Proof. exact dealloc_matches_origin. Qed.
 Print Assumptions C20_dealloc_matches_origin.
 
 (* At every reachable state, GetAllocateCount() of a pool equals the number of live single-object blocks
    obtained through allocators sharing it, and each of them carries the pool's current parameters. *)
-Theorem C20_count_is_live_pooled_blocks : forall ops st' obs, good true init ops = true -> run init ops = Ok (st', obs) ->
+Theorem C20_count_is_live_pooled_blocks : forall cfg ops st' obs, good cfg true init ops = true -> run cfg init ops = Ok (st', obs) ->
   forall p, (p < npools st')%nat ->
     pcount (pools st' p) = sumn (nblocks st') (fun b => pooled_in p (blocks st' b)) /\
     forall b, (b < nblocks st')%nat -> pooled_in p (blocks st' b) = 1%nat ->
@@ -33,7 +33,7 @@ Print Assumptions C20_count_is_live_pooled_blocks.
    different sizes interleaved on one pool) a raw block is pushed into the pool and a pooled block is handed
    to the base allocator.  The harness shows the real allocator does exactly this on the same script. *)
 Theorem C20_dealloc_origin_refuted_general :
-  good false init refute_ops = true /\ good true init refute_ops = false /\
+  good cfg_default false init refute_ops = true /\ good cfg_default true init refute_ops = false /\
   nth_error (routing refute_ops) 6 = Some (Some (RawMem 40), Some (Pooled (40, 8)%Z), false) /\
   nth_error (routing refute_ops) 8 = Some (Some (Pooled (40, 8)%Z), Some (RawMem 40), false).
 Proof. exact dealloc_origin_refuted_general. Qed.
@@ -44,7 +44,7 @@ Print Assumptions C20_dealloc_origin_refuted_general.
    been destroyed and holds nothing (its buffers and the shared_ptr control block were returned when the
    last owner died); when all allocator objects are gone and all blocks deallocated, nothing is
    outstanding at the base allocator. *)
-Theorem C20_last_owner_returns_all : forall ops st' obs, good true init ops = true -> run init ops = Ok (st', obs) ->
+Theorem C20_last_owner_returns_all : forall cfg ops st' obs, good cfg true init ops = true -> run cfg init ops = Ok (st', obs) ->
   (outstanding st' + sum_frees obs = sum_allocs obs)%nat /\
   (forall p, (p < npools st')%nat ->
      (forall h, (h < nhandles st')%nat -> halive (handles st' h) = true -> hpool (handles st' h) <> p) ->
@@ -59,16 +59,16 @@ Print Assumptions C20_last_owner_returns_all.
    the parameters of the same value type; all existing pools are unchanged; and any later history that
    does not go through an allocator of pool q (resp. p) leaves q (resp. p) and the blocks obtained through
    it untouched - so using or destroying the original does not affect the copy and vice versa. *)
-Theorem C20_copies_use_independent_pools : forall st h, inv st -> handle_ok st h = true ->
-  exists st1 ob, step st (OpSocc h) = Ok (st1, ob) /\ inv st1 /\
+Theorem C20_copies_use_independent_pools : forall cfg st h, inv cfg st -> handle_ok st h = true ->
+  exists st1 ob, step cfg st (OpSocc h) = Ok (st1, ob) /\ inv cfg st1 /\
     let c := nhandles st in
     let q := hpool (handles st1 c) in
     halive (handles st1 c) = true /\ hvt (handles st1 c) = hvt (handles st h) /\
     q = npools st /\ (forall k, (k < nhandles st)%nat -> halive (handles st k) = true -> hpool (handles st1 k) <> q) /\
-    pools st1 q = mkPool (get_params (hvt (handles st h))) 0 1 0 true /\
+    pools st1 q = mkPool (get_params cfg (hvt (handles st h))) 0 1 0 true /\
     (forall p, (p < npools st)%nat -> pools st1 p = pools st p) /\
-    (forall ops st2 obs, run st1 ops = Ok (st2, obs) -> avoids q st1 ops -> pool_untouched q st1 st2) /\
-    (forall ops st2 obs p, (p < npools st)%nat -> run st1 ops = Ok (st2, obs) -> avoids p st1 ops -> pool_untouched p st1 st2).
+    (forall ops st2 obs, run cfg st1 ops = Ok (st2, obs) -> avoids cfg q st1 ops -> pool_untouched q st1 st2) /\
+    (forall ops st2 obs p, (p < npools st)%nat -> run cfg st1 ops = Ok (st2, obs) -> avoids cfg p st1 ops -> pool_untouched p st1 st2).
 Proof. exact copies_use_independent_pools. Qed.
 Print Assumptions C20_copies_use_independent_pools.
 
@@ -77,33 +77,33 @@ Print Assumptions C20_copies_use_independent_pools.
    true_type: std::swap = copy, assign, assign, destroy) make the target share the source's pool: exactly the
    blocks the source could deallocate can be deallocated through the target; no base-allocator traffic, no
    pool parameter / allocate count / buffer changes, the invariant is kept. *)
-Theorem C20_move_and_swap_carry_pool : forall st, inv st ->
+Theorem C20_move_and_swap_carry_pool : forall cfg st, inv cfg st ->
   (forall h, handle_ok st h = true ->
-     exists st1 ob, step st (OpCopy h) = Ok (st1, ob) /\ inv st1 /\ same_mem st st1 /\ o_allocs ob = 0%nat /\ o_frees ob = 0%nat /\
+     exists st1 ob, step cfg st (OpCopy h) = Ok (st1, ob) /\ inv cfg st1 /\ same_mem st st1 /\ o_allocs ob = 0%nat /\ o_frees ob = 0%nat /\
        handles st1 (nhandles st) = mkHandle true (hpool (handles st h)) (hvt (handles st h)) /\
-       forall b n s, proto_ok st (OpDealloc h b n s) = true -> proto_ok st1 (OpDealloc (nhandles st) b n s) = true) /\
+       forall b n s, proto_ok cfg st (OpDealloc h b n s) = true -> proto_ok cfg st1 (OpDealloc (nhandles st) b n s) = true) /\
   (forall hd hs, handle_ok st hd = true -> handle_ok st hs = true -> hvt (handles st hd) = hvt (handles st hs) ->
      ((2 <= prefs (pools st (hpool (handles st hd))))%nat \/ hpool (handles st hd) = hpool (handles st hs)) ->
-     exists st1 ob, step st (OpAssign hd hs) = Ok (st1, ob) /\ inv st1 /\ same_mem st st1 /\ o_allocs ob = 0%nat /\ o_frees ob = 0%nat /\
+     exists st1 ob, step cfg st (OpAssign hd hs) = Ok (st1, ob) /\ inv cfg st1 /\ same_mem st st1 /\ o_allocs ob = 0%nat /\ o_frees ob = 0%nat /\
        handles st1 hd = mkHandle true (hpool (handles st hs)) (hvt (handles st hd)) /\
-       forall b n s, proto_ok st (OpDealloc hs b n s) = true -> proto_ok st1 (OpDealloc hd b n s) = true) /\
+       forall b n s, proto_ok cfg st (OpDealloc hs b n s) = true -> proto_ok cfg st1 (OpDealloc hd b n s) = true) /\
   (forall h1 h2, h1 <> h2 -> handle_ok st h1 = true -> handle_ok st h2 = true -> hvt (handles st h1) = hvt (handles st h2) ->
-     exists st' obs, run st (swap_ops st h1 h2) = Ok (st', obs) /\ inv st' /\ same_mem st st' /\
+     exists st' obs, run cfg st (swap_ops st h1 h2) = Ok (st', obs) /\ inv cfg st' /\ same_mem st st' /\
        sum_allocs obs = 0%nat /\ sum_frees obs = 0%nat /\
        handles st' h1 = mkHandle true (hpool (handles st h2)) (hvt (handles st h1)) /\
        handles st' h2 = mkHandle true (hpool (handles st h1)) (hvt (handles st h2)) /\
        (forall k, (k < nhandles st)%nat -> k <> h1 -> k <> h2 -> handles st' k = handles st k) /\
-       (forall b n s, proto_ok st (OpDealloc h2 b n s) = true -> proto_ok st' (OpDealloc h1 b n s) = true) /\
-       (forall b n s, proto_ok st (OpDealloc h1 b n s) = true -> proto_ok st' (OpDealloc h2 b n s) = true)).
+       (forall b n s, proto_ok cfg st (OpDealloc h2 b n s) = true -> proto_ok cfg st' (OpDealloc h1 b n s) = true) /\
+       (forall b n s, proto_ok cfg st (OpDealloc h1 b n s) = true -> proto_ok cfg st' (OpDealloc h2 b n s) = true)).
 Proof. exact move_and_swap_carry_pool. Qed.
 Print Assumptions C20_move_and_swap_carry_pool.
 
 (* Construction from an rvalue allocator (what every libstdc++ node container does with its node allocator
    in its move constructor, and std::swap with its temporary) is a COPY: no move constructor is declared.
    The source keeps its pool and stays usable, the new allocator shares the pool, use_count + 1. *)
-Theorem C20_move_construction_is_copy : forall st h, inv st -> handle_ok st h = true ->
-  step st (OpMove h) = step st (OpCopy h) /\
-  exists st1 ob, step st (OpMove h) = Ok (st1, ob) /\ inv st1 /\ same_mem st st1 /\
+Theorem C20_move_construction_is_copy : forall cfg st h, inv cfg st -> handle_ok st h = true ->
+  step cfg st (OpMove h) = step cfg st (OpCopy h) /\
+  exists st1 ob, step cfg st (OpMove h) = Ok (st1, ob) /\ inv cfg st1 /\ same_mem st st1 /\
     handles st1 h = handles st h /\
     handles st1 (nhandles st) = mkHandle true (hpool (handles st h)) (hvt (handles st h)) /\
     prefs (pools st1 (hpool (handles st h))) = S (prefs (pools st (hpool (handles st h)))).
@@ -114,10 +114,10 @@ Print Assumptions C20_move_construction_is_copy.
    is destroyed and returns all its buffers plus the control block; the destination now shares the source's
    pool, which is unchanged except for use_count + 1; all blocks, all other pools and every cache are
    unchanged; the source's deallocation rights carry over to the destination. *)
-Theorem C20_assign_last_owner_carry : forall st hd hs, inv st -> proto_ok st (OpAssign hd hs) = true ->
+Theorem C20_assign_last_owner_carry : forall cfg st hd hs, inv cfg st -> proto_ok cfg st (OpAssign hd hs) = true ->
   hpool (handles st hd) <> hpool (handles st hs) -> prefs (pools st (hpool (handles st hd))) = 1%nat ->
   let pd := hpool (handles st hd) in let ps := hpool (handles st hs) in
-  exists st1 ob, step st (OpAssign hd hs) = Ok (st1, ob) /\ inv st1 /\
+  exists st1 ob, step cfg st (OpAssign hd hs) = Ok (st1, ob) /\ inv cfg st1 /\
     handles st1 hd = mkHandle true ps (hvt (handles st hd)) /\ (forall k, k <> hd -> handles st1 k = handles st k) /\
     palive (pools st1 pd) = false /\ pool_out (pools st1 pd) = 0%nat /\
     o_allocs ob = 0%nat /\ o_frees ob = S (pheld (pools st pd)) /\
@@ -125,7 +125,7 @@ Theorem C20_assign_last_owner_carry : forall st hd hs, inv st -> proto_ok st (Op
     palive (pools st ps) = true /\
     (forall q, q <> pd -> q <> ps -> pools st1 q = pools st q) /\
     (forall b, blocks st1 b = blocks st b) /\ nblocks st1 = nblocks st /\ (forall q, cached st1 q = cached st q) /\
-    (forall b n s, proto_ok st (OpDealloc hs b n s) = true -> proto_ok st1 (OpDealloc hd b n s) = true).
+    (forall b n s, proto_ok cfg st (OpDealloc hs b n s) = true -> proto_ok cfg st1 (OpDealloc hd b n s) = true).
 Proof. exact assign_last_owner_carry. Qed.
 Print Assumptions C20_assign_last_owner_carry.
 
@@ -133,8 +133,8 @@ Print Assumptions C20_assign_last_owner_carry.
    allocator objects, other pools unchanged; GetAllocateCount, use_count, liveness of every pool unchanged;
    a pool with outstanding blocks keeps its parameters and cache (an IDLE pool of other parameters has
    already been re-parameterised by line 119); invariant kept; base allocator balanced. *)
-Theorem C20_alloc_failure_guarantee : forall st h n grow, inv st -> proto_ok st (OpAllocFail h n grow) = true ->
-  exists st' ob, step st (OpAllocFail h n grow) = Ok (st', ob) /\ inv st' /\
+Theorem C20_alloc_failure_guarantee : forall cfg st h n grow, inv cfg st -> proto_ok cfg st (OpAllocFail h n grow) = true ->
+  exists st' ob, step cfg st (OpAllocFail h n grow) = Ok (st', ob) /\ inv cfg st' /\
     o_dest ob = None /\ nblocks st' = nblocks st /\ (forall b, blocks st' b = blocks st b) /\
     nhandles st' = nhandles st /\ (forall k, handles st' k = handles st k) /\ npools st' = npools st /\
     (forall q, pcount (pools st' q) = pcount (pools st q) /\ prefs (pools st' q) = prefs (pools st q) /\
@@ -148,42 +148,89 @@ Print Assumptions C20_alloc_failure_guarantee.
 (* Re-parameterising an IDLE pool whose cache still holds freed blocks of the old parameter set (line 119):
    the old MemPool (buffers and parked blocks) is gone; the new one has the requested parameters, an EMPTY
    cache, count 1 and only the buffers obtained by this call. *)
-Theorem C20_reparam_forgets_cache : forall st h grow,
+Theorem C20_reparam_forgets_cache : forall cfg st h grow,
   let p := hpool (handles st h) in let P := pools st p in
-  params_eqb (get_params (hvt (handles st h))) (pparams P) = false -> pcount P = 0%nat ->
-  exists st' ob, step st (OpAlloc h 1 grow) = Ok (st', ob) /\
-    cached st' p = 0%nat /\ pools st' p = mkPool (get_params (hvt (handles st h))) 1 (prefs P) grow (palive P) /\
+  params_eqb (get_params cfg (hvt (handles st h))) (pparams P) = false -> pcount P = 0%nat ->
+  exists st' ob, step cfg st (OpAlloc h 1 grow) = Ok (st', ob) /\
+    cached st' p = 0%nat /\ pools st' p = mkPool (get_params cfg (hvt (handles st h))) 1 (prefs P) grow (palive P) /\
     o_reparam ob = true /\ o_frees ob = pheld P /\ o_allocs ob = grow /\
-    o_dest ob = Some (Pooled (get_params (hvt (handles st h)))).
+    o_dest ob = Some (Pooled (get_params cfg (hvt (handles st h)))).
 Proof. exact reparam_forgets_cache. Qed.
 Print Assumptions C20_reparam_forgets_cache.
 
+(* The origin theorem with its hypotheses spelled out.  [protocol]: every operation satisfies the allocator
+   requirements in the state it runs in.  [no_size_sharing] = HYPOTHESIS H: a single-object request through an
+   allocator whose pool currently has a live pooled block uses that block's parameter set - i.e. a busy pool is
+   not shared across node sizes.  For every pool configuration (blockCount, cachedFreeBlockCount). *)
+Theorem C20_dealloc_matches_origin_under_H : forall cfg ops,
+  respects cfg (protocol cfg) init ops -> respects cfg (no_size_sharing cfg) init ops ->
+  exists st' obs, run cfg init ops = Ok (st', obs) /\ Forall (fun o => routed_ok o = true) obs /\ inv cfg st'.
+Proof. exact dealloc_matches_origin_under_H. Qed.
+Print Assumptions C20_dealloc_matches_origin_under_H.
+
+(* ... and H cannot be dropped (known finding `shared-pool-misroute`, reproduced on the real allocator on every
+   run): the protocol is respected at every step, H is not, a raw block goes into the pool and a pooled block to
+   the base allocator. *)
+Theorem C20_dealloc_origin_refuted_without_H :
+  respects cfg_default (protocol cfg_default) init refute_ops /\
+  ~ respects cfg_default (no_size_sharing cfg_default) init refute_ops /\
+  nth_error (routing refute_ops) 6 = Some (Some (RawMem 40), Some (Pooled (40, 8)%Z), false) /\
+  nth_error (routing refute_ops) 8 = Some (Some (Pooled (40, 8)%Z), Some (RawMem 40), false).
+Proof. exact dealloc_origin_refuted_without_H. Qed.
+Print Assumptions C20_dealloc_origin_refuted_without_H.
+
+(* the boolean monitor used by the harness/driver is exactly H *)
+Theorem C20_h_monitor_is_H : forall cfg st o, h_ok cfg st o = true <-> no_size_sharing cfg st o.
+Proof. exact h_ok_iff. Qed.
+Print Assumptions C20_h_monitor_is_H.
+
+(* Frame, no hypothesis on the client: mCachedCount never exceeds cachedFreeBlockCount (cache-less configurations:
+   stays 0), for every operation and every history; uses the GENERATED pvUseCache. *)
+Theorem C20_cache_bounded : forall cfg ops st st' obs, cache_bounded cfg st -> run cfg st ops = Ok (st', obs) -> cache_bounded cfg st'.
+Proof. exact run_cache_bounded. Qed.
+Print Assumptions C20_cache_bounded.
+
+(* Frame: constructing, copying, rebinding, assigning and destroying allocator objects never touches a cache, a
+   block, or any pool's parameters; a pool's allocate count changes only by the pool being destroyed. *)
+Theorem C20_handle_ops_frame : forall cfg st o st' ob, step cfg st o = Ok (st', ob) ->
+  match o with OpAlloc _ _ _ | OpDealloc _ _ _ _ | OpAllocFail _ _ _ => False | _ => True end ->
+  cached st' = cached st /\ blocks st' = blocks st /\ nblocks st' = nblocks st /\
+  forall q, (q < npools st)%nat -> pparams (pools st' q) = pparams (pools st q) /\
+            (pcount (pools st' q) = pcount (pools st q) \/ palive (pools st' q) = false).
+Proof. exact handle_ops_frame. Qed.
+Print Assumptions C20_handle_ops_frame.
+
+(* one block per buffer (blockCount = 1, e.g. MemPoolParams<1,2>): the pool block is the object itself *)
+Theorem C20_pool_block_single : forall cfg vt, block_count cfg = 1%Z -> (0 < vsize vt)%Z -> get_params cfg vt = (vsize vt, valign vt).
+Proof. exact pool_block_single. Qed.
+Print Assumptions C20_pool_block_single.
+
 (* The invariant used above is not vacuous: it holds initially and is preserved by every protocol- and
    H-respecting operation (which never gets stuck, routes correctly and balances the base allocator). *)
-Theorem C20_invariant_step : forall st o, inv st -> proto_ok st o = true -> h_ok st o = true ->
-  exists st' ob, step st o = Ok (st', ob) /\ inv st' /\ routed_ok ob = true /\
+Theorem C20_invariant_step : forall cfg st o, inv cfg st -> proto_ok cfg st o = true -> h_ok cfg st o = true ->
+  exists st' ob, step cfg st o = Ok (st', ob) /\ inv cfg st' /\ routed_ok ob = true /\
     (outstanding st' + o_frees ob = outstanding st + o_allocs ob)%nat.
 Proof. exact step_good_all. Qed.
 Print Assumptions C20_invariant_step.
 
-(* About the generated CorrectBlockSize/Ceil: the pool block for a value type (0 < size < 2^32,
+(* About the generated CorrectBlockSize/Ceil, for every blockCount <> 1: the pool block for a value type (0 < size < 2^32,
    0 < alignment <= 1024) is >= sizeof, a multiple of the alignment, >= 2 alignments, < sizeof + 2 alignments. *)
-Theorem C20_pool_block_fits_value : forall vt, vt_ok vt = true ->
-  (snd (get_params vt) = valign vt /\ vsize vt <= fst (get_params vt) /\ 2 * valign vt <= fst (get_params vt) /\
-  fst (get_params vt) mod valign vt = 0 /\ fst (get_params vt) < vsize vt + 2 * valign vt)%Z.
+Theorem C20_pool_block_fits_value : forall cfg vt, block_count cfg <> 1%Z -> vt_ok vt = true ->
+  (snd (get_params cfg vt) = valign vt /\ vsize vt <= fst (get_params cfg vt) /\ 2 * valign vt <= fst (get_params cfg vt) /\
+  fst (get_params cfg vt) mod valign vt = 0 /\ fst (get_params cfg vt) < vsize vt + 2 * valign vt)%Z.
 Proof. exact pool_block_fits. Qed.
 Print Assumptions C20_pool_block_fits_value.
 
 (* Non-vacuity: a concrete good history with pooled nodes, a raw bucket array, a copy with its own pool,
    a swap and full tear-down; and an idle pool re-parameterised for another node type under H. *)
-Theorem C20_demo_history_good : good true init demo_ops = true.
+Theorem C20_demo_history_good : good cfg_default true init demo_ops = true.
 Proof. exact demo_good. Qed.
 Print Assumptions C20_demo_history_good.
 
 Theorem C20_reparam_happens_under_H :
   let ops := [OpNew t24; OpRebind 0 t40; OpAlloc 0 1 1; OpDealloc 0 0 1 0; OpAlloc 1 1 1; OpDealloc 1 1 1 1; OpDestroy 0; OpDestroy 1] in
-  good true init ops = true /\
-  match run init ops with Ok (st, obs) => (outstanding st, map o_reparam obs) | _ => (1%nat, []) end
+  good cfg_default true init ops = true /\
+  match run cfg_default init ops with Ok (st, obs) => (outstanding st, map o_reparam obs) | _ => (1%nat, []) end
     = (0%nat, [false; false; false; false; true; false; false; false]).
 Proof. exact reparam_under_H. Qed.
 Print Assumptions C20_reparam_happens_under_H.
